@@ -154,6 +154,57 @@ func vfFidelityCase(c *vfCtx, cfg vfCfg, tops []string, specs []vfFileSpec, prep
 	c.Sample(map[string]interface{}{"cfg": cfg.sig(), "tops": tops, "entries": len(specs), "bytes": total, "reported": names})
 }
 
+// vfSameBaseCase: two selected paths with the same base name.  Without overwrite both must be stored (under
+// distinct reported names); with overwrite the transfer is refused ("Duplicate name") before anything is
+// written, or - if it is carried out - still stores both under distinct reported names.
+func vfSameBaseCase(c *vfCtx, cfg vfCfg) {
+	src := filepath.Join(c.Dir, "src")
+	dst := filepath.Join(c.Dir, "dst")
+	os.MkdirAll(dst, 0755)
+	specs := []vfFileSpec{{Rel: "a", Dir: true}, {Rel: "b", Dir: true}, {Rel: "a/report.txt", Size: 3000, Content: "text"}, {Rel: "b/report.txt", Size: 5000, Content: "rand"}, {Rel: "other.bin", Size: 700, Content: "rand"}}
+	if err := vfWriteTree(src, specs, vfNewRand(c.ID, "content")); err != nil {
+		c.Inconc("cannot write source tree: %v", err)
+		return
+	}
+	tops := []string{"a/report.txt", "other.bin", "b/report.txt"}
+	var paths []string
+	for _, t := range tops {
+		paths = append(paths, filepath.Join(src, t))
+	}
+	srcTree := vfSnapshot(src)
+	c.Replay(map[string]interface{}{"cfg": cfg, "tops": tops})
+	s, so, co, fin := vfRunTransfer(c, cfg, paths, dst, 120*time.Second)
+	if !fin {
+		return
+	}
+	defer s.Close()
+	dstTree := vfSnapshot(dst)
+	if so.Kind != "success" && co.Kind != "success" {
+		if cfg.Overwrite && (strings.Contains(so.Text, "Duplicate name") || strings.Contains(co.Text, "Duplicate name")) {
+			if len(dstTree) != 0 {
+				c.Viol("c01-samebase-refused-but-wrote", "the transfer was refused (duplicate name with overwrite) yet the destination holds %v", dstTree.keys())
+				return
+			}
+			c.Obs("samebase_refused_with_overwrite", 1)
+			c.Nontrivial("samebase refused " + cfg.sig())
+			return
+		}
+		if vfIsTimeoutText(so.Text) || vfIsTimeoutText(co.Text) {
+			c.Slow("c01-fault-free-timeout", "same base name twice: server=%s/%q client=%s/%q cfg=%s", so.Kind, vfClip(so.Text), co.Kind, vfClip(co.Text), cfg)
+			return
+		}
+		c.Viol("c01-fault-free-failed:samebase:"+vfErrClass(so.Text+"|"+co.Text), "two paths with the same base name: server=%s/%q client=%s/%q cfg=%s", so.Kind, vfClip(so.Text), co.Kind, vfClip(co.Text), cfg)
+		return
+	}
+	names := vfReportedNames(cfg, so, co)
+	vfCheckFidelity(c, cfg, srcTree, tops, vfTree{}, dstTree, names)
+	if c.Failed() {
+		return
+	}
+	c.Obs("samebase_stored_under_distinct_names", 1)
+	c.Nontrivial("samebase stored " + cfg.sig())
+}
+
 // vfCheckFidelity: i-th source path maps to the i-th distinct reported name; content equal; nothing else changed.
 func vfCheckFidelity(c *vfCtx, cfg vfCfg, srcTree vfTree, tops []string, dstBefore, dstTree vfTree, names []string) {
 	if len(names) != len(tops) {
@@ -317,6 +368,26 @@ func TestVF_C01(t *testing.T) {
 			tops, specs := vfGenTree(c.R, cfg.Directory, maxSize, maxFiles)
 			vfFidelityCase(c, cfg, tops, specs, nil, nil)
 		}})
+	}
+	if !vfWinEnv {
+		// the same base name twice among the selected paths
+		k := 0
+		for _, dir := range []string{"up", "down"} {
+			for _, y := range []bool{false, true} {
+				for _, dmode := range []bool{false, true} {
+					for _, direct := range []bool{false, true} {
+						if !vfThorough() && direct && dmode {
+							continue
+						}
+						dir, y, dmode, direct, kk := dir, y, dmode, direct, k
+						k++
+						cases = append(cases, vfCase{ID: fmt.Sprintf("samebase-%s-y%v-d%v-direct%v", dir, y, dmode, direct), Run: func(c *vfCtx) {
+							vfSameBaseCase(c, vfCfg{Dir: dir, Overwrite: y, Directory: dmode, Direct: direct, Timeout: 60, Quiet: kk%2 == 0, Protocol: []int{0, 0, 2, 3}[kk%4]})
+						}})
+					}
+				}
+			}
+		}
 	}
 	if os.Getenv("VF_PROCS") != "" {
 		vfRunCases(t, "C01", vfProcTransferCases(), 2, 400*time.Second)
